@@ -17,7 +17,9 @@ import json
 import socket as real_socket
 
 ALPHABET = ["OK_KA", "OK_CLOSE", "REFUSE", "CLOSE0", "RESET", "E4XX_LEN", "E5XX_LEN", "E5XX_NOLEN", "BODILESS", "TRUNC", "EMPTY200",
-            "GARBAGE200"]
+            "GARBAGE200", "TRUNC_BIG", "RESET_MID"]
+# TRUNC_BIG / RESET_MID: the truncated-body and reset faults striking after several read blocks of the body were delivered
+BIG_PAD = (b"0123456789abcdef" * 200)
 
 
 def http_resp(status, reason, body, extra=(), length=True, ka=True):
@@ -246,6 +248,14 @@ class PeerSocket(object):
             full = http_resp(200, "OK", good + b"x" * 16)
             self._emit(full[:-8])
             self.peer_closed = True
+        elif b == "TRUNC_BIG":
+            full = http_resp(200, "OK", b'"' + BIG_PAD + b'"')
+            self._emit(full[:-1200])
+            self.peer_closed = True
+        elif b == "RESET_MID":
+            full = http_resp(200, "OK", b'"' + BIG_PAD + b'"')
+            self._emit(full[:-1200])
+            self.reset_after = True
         elif b == "EMPTY200":
             self._emit(http_resp(200, "OK", b""))
         elif b == "GARBAGE200":
